@@ -470,20 +470,40 @@ func (v *Verifier) runInlined(s *State, body *ast.BlockStmt, sig *types.Signatur
 		s.defers = saveDefers
 		return rets[0].Ret
 	}
-	// join: path conditions beyond the common prefix become guards
+	// join: the branch conditions taken beyond the common prefix are the path guards;
+	// every other fact learnt on a path is kept under its guard
 	n0 := len(s.pc)
+	nb0 := len(s.branches)
 	joined := rets[0].St.clone()
 	joined.pc = append([]*Term(nil), s.pc...)
+	joined.branches = append([]*Term(nil), s.branches...)
 	var guards []*Term
 	for _, f := range rets {
-		extra := f.St.pc[min(n0, len(f.St.pc)):]
-		guards = append(guards, And(extra...))
+		br := f.St.branches[min(nb0, len(f.St.branches)):]
+		guards = append(guards, And(br...))
 	}
-	// name the guards
 	for i, g := range guards {
-		guards[i] = v.name(joined, "path", g)
+		if g.Size() > 12 {
+			guards[i] = v.name(joined, "path", g)
+		}
 	}
 	joined.assume(Or(guards...))
+	for i, f := range rets {
+		isBranch := map[*Term]bool{}
+		for _, b := range f.St.branches[min(nb0, len(f.St.branches)):] {
+			isBranch[b] = true
+		}
+		for _, fact := range f.St.pc[min(n0, len(f.St.pc)):] {
+			if isBranch[fact] {
+				continue
+			}
+			if v.heapAxSet[fact] || v.axiomSet[fact] {
+				joined.pc = append(joined.pc, fact)
+				continue
+			}
+			joined.pc = append(joined.pc, Implies(guards[i], fact))
+		}
+	}
 	nres := sig.Results().Len()
 	res := make([]*Term, nres)
 	for k := 0; k < nres; k++ {
